@@ -313,6 +313,8 @@ func runC05(c E1Case) (out core.Outcome) {
 		}
 	} else if len(p.readBegin) > 0 {
 		viol("read-without-active", "%d reads delivered but active never was", len(p.readBegin))
+	} else if r.serveReturned != 0 && len(p.activeBegin) == 0 {
+		viol("active-never-delivered", "the channel was served and handed out (ServeChannel returned) but the active event was never delivered (inactive delivered %d times)", len(r.inactive))
 	}
 	if r.serveReturned == 0 {
 		viol("serve-never-returned", "ServeChannel did not return")
